@@ -260,6 +260,15 @@ class PyEngine:
             return [(st, EMPTY if v == '' else z3.Const('strlit_' + str(abs(hash(v)) % 10**8), Str))]
         return [(st, OpaqueV(repr(v)))]
 
+    def e_Dict(self, n, st):
+        # a dict display {k: v, **m}: its parts are evaluated (in order), the new dict itself is opaque - it is a NEW object,
+        # identical to none of its sources
+        outs = []
+        parts = [x for kv in zip(n.keys, n.values) for x in kv if x is not None]
+        for s2, vals in self.ev_seq(parts, st):
+            outs.append((s2, OpaqueV(f'dict-display@L{n.lineno}')))
+        return outs
+
     def e_JoinedStr(self, n, st):
         return [(st, OpaqueV('fstring'))]
 
@@ -635,8 +644,9 @@ class PyEngine:
             star = [a for a in n.args if isinstance(a, ast.Starred)]
             plain = [a for a in n.args if not isinstance(a, ast.Starred)]
             kw_names = [k.arg for k in n.keywords]
-            if any(k is None for k in kw_names):
-                raise Unsupported('**kwargs call')
+            if sum(k is None for k in kw_names) > 1:
+                raise Unsupported('call with several ** mappings')
+            kw_names = ['**' if k is None else k for k in kw_names]      # f(..., **m): the mapping is handed to the hooks as '**'
             for s2, vals in self.ev_seq(plain + [a.value for a in star] + [k.value for k in n.keywords], s):
                 args = vals[:len(plain)]
                 stars = vals[len(plain):len(plain) + len(star)]
@@ -647,10 +657,14 @@ class PyEngine:
     def call(self, st, f, args, kwargs, n, stars=()):
         line = getattr(n, 'lineno', 0)
         hook = getattr(self.cur, 'call', None)
+        if '**' in kwargs and not hook:
+            raise Unsupported('**kwargs call')
         if hook:
             r = hook(self, st, f, args, kwargs, n, stars)
             if r is not None:
                 return r
+        if '**' in kwargs:
+            raise Unsupported('**kwargs call')
         if isinstance(f, BuiltinV):
             return self.builtin(st, f.name, args, kwargs, n, stars)
         if isinstance(f, FuncV):
@@ -882,7 +896,9 @@ class PyEngine:
             if isinstance(v, TupV) and len(v.items) == len(target.elts):
                 for t, x in zip(target.elts, v.items):
                     self.assign(st, t, x)
-            elif isinstance(v, SeqV):
+            elif isinstance(v, SeqV) or is_z3(v):
+                if not isinstance(v, SeqV):
+                    v = self.to_seq(st, v)          # unpacking an object: through the contract's sequence view of it
                 k = len(target.elts)
                 s_bad = st.clone()
                 self.assume(s_bad, v.len != k)
